@@ -103,10 +103,15 @@ def joined_is_inside(p: Prov, folder: str, rel: str):
     assume(f.startswith(p.sep))
     r = nps(p, rel).strip(p.sep)
     assume(len(r) > 0)
+    # win_paths: a relative part that looks like a drive ("c:...") joined to the root keeps no leading separator
+    assume(not p.win_paths or f != p.sep or len(r) < 2 or r[1] != ":")
     j = p.join(folder, rel)
+    check(j == (f if f != p.sep else "") + p.sep + r, "join is folder + sep + relative part")
+    check(nps(p, j) == j, "join result is normalised")
+    ghost = (j.lower(), f.lower())      # instantiates the `lower` specification on the concatenation
     s = p.is_subpath(folder, j)
     check(truthy(s), "joined path is reported inside the folder")
-    check(s.strip(p.sep) == r, "with the same relative part")
+    check(s == p.sep + r, "with the same relative part")
 
 
 @lemma(props=["C13", "C12"], opaque=["nps"])
@@ -128,6 +133,7 @@ def prefix_sibling_not_inside(p: Prov, folder: str, x: str, c: str, t: str):
     assume(c != p.sep)
     assume(p.alt_sep is None or c != p.alt_sep)
     assume(nps(p, x) == f + c + t)
+    ghost = ((f + c + t).lower(), f.lower(), c.lower())
     s = p.is_subpath(folder, x)
     check(not truthy(s), "prefix sibling is not a subpath")
 
@@ -159,7 +165,7 @@ def replace_moves_relative_part(p: Prov, x: str, f: str, g: str):
     check(implies(s != p.sep, r == nps(p, g) + s), "relative part appended unchanged")
 
 
-@lemma(props=["C13"])
+@lemma(props=["C13"], opaque=["normalize_path"])
 def paths_match_equivalence(p: Prov, a: opt_str, b: opt_str, c: opt_str, d: bool):
     """law 6: reflexive, symmetric, transitive, and agrees with normalize_path"""
     check(p.paths_match(a, a, d), "reflexive")
